@@ -147,6 +147,11 @@ def run_case(case):
                 entry["table_after_lookup"] = dict(master.dhcp_dict)
                 info["script"].append(entry)
                 continue
+            elif k == "mrelease":
+                # the master's application expires node i's lease (public master API); the node is not told
+                if addr_of[i] != 0o4444:
+                    net.call("m", lambda node: node.release_address(addr_of[i]), 5000)
+                continue
             elif k == "msend":
                 # the master sends n user messages that need no NETWORK_ACK (type 1) to node i: traffic that the
                 # node's relay forwards downstream between the node's own requests
@@ -346,6 +351,8 @@ def run_case(case):
             exp = my != 0o4444 and not (parent_dead if not op[2] else route_dead)
             if netaddr.parent(my) == 0 and my != 0o4444:
                 exp = True
+            if op[2] and my != 0o4444 and not route_dead and table.get(i) != my:
+                exp = False  # asked to verify with the master, whose table no longer maps this ID to the node's address
             if r is not exp:
                 res.fail("C17/check_connection/%s" % ("expected-true" if exp else "expected-false"), "ID %d (0o%o) check_connection(ping_master=%r) = %r" % (
                     i, my, bool(op[2]), r))
@@ -462,6 +469,17 @@ def _repeated_lookup(reps):
                        "concurrent": False, "loss": "D", "timeout": 7.5}
 
 
+def _master_side_release():
+    """the master's application releases a node's lease behind its back; the node then asks about itself, pings, re-joins"""
+    ids = [11, 22, 33, 44, 55, 66]
+    nodes = [{"id": i, "kind": "mesh", "offset": 400 * n, "mcu": {"spi": 50, "jit": 0, "seed": n, "poll": 100}} for n, i in enumerate(ids)]
+    for who in (0, 2, 5):
+        other = (who + 1) % len(ids)
+        script = [["lookup_addr", who, ids[who]], ["mrelease", who], ["lookup_addr", who, ids[who]], ["check", who, True], ["check", who, False],
+                  ["lookup_addr", other, ids[who]], ["lookup_id", who, "of", other], ["rejoin", who], ["check", who, True], ["lookup_addr", who, ids[who]]]
+        yield {"nodes": nodes, "master_mcu": {"spi": 50, "jit": 0, "seed": 7, "poll": 100}, "script": script, "concurrent": False, "loss": "D", "timeout": 7.5}
+
+
 def _small_ids_all_pairs():
     """node IDs 1..5 (and 8..13, the numeric values of level-2 addresses) joined in ascending and descending order, so that
     IDs coincide numerically with other nodes' addresses; then every node sends to every other node ID"""
@@ -475,9 +493,11 @@ def parts(tier):
     if tier == "quick":
         return [Part("relay-child-stagger-sweep", "enum", _pair_sweep(200), exhaustive=True),
                 Part("ids-equal-to-address-values-all-pairs", "enum", _small_ids_all_pairs, exhaustive=True),
+                Part("master-side-release", "enum", _master_side_release, exhaustive=True),
                 Part("repeated-identical-lookups", "enum", lambda: _repeated_lookup(4), exhaustive=True),
                 Part("release-after-send", "enum", _release_after_send, exhaustive=True), Part("generated", "gen", lambda: _strategy(8), n=96)]
     return [Part("relay-child-stagger-sweep", "enum", _pair_sweep(25), exhaustive=True),
             Part("ids-equal-to-address-values-all-pairs", "enum", _small_ids_all_pairs, exhaustive=True),
+            Part("master-side-release", "enum", _master_side_release, exhaustive=True),
             Part("repeated-identical-lookups", "enum", lambda: _repeated_lookup(8), exhaustive=True),
             Part("release-after-send", "enum", _release_after_send, exhaustive=True), Part("generated", "gen", lambda: _strategy(12), n=3000)]
